@@ -19,7 +19,72 @@ fn viol(s: &In, clause: &str, wit: String, msg: String) -> Violation {
 
 pub const ALIAS_MAX: u16 = 2;
 
+/// Variant for servers configured with handle_qos_after_disconnect = QoS 0 whose handler force-closes the
+/// connection when it sees topic "a": publishes already buffered are still dispatched - QoS 0 ones reach the handler,
+/// QoS 1 ones are dropped - and every one of them binds / rebinds its alias all the same.
+fn final_check_after_close(s: &In) -> Result<(), Violation> {
+    let hs = handler_records(s);
+    let mut map: HashMap<u16, String> = HashMap::new();
+    let mut closed = false;
+    let mut hidx = 0usize;
+    let mut missing_from: Option<usize> = None;
+    for (i, snt) in s.sent.iter().enumerate() {
+        let Some(Pkt::Publish { topic, props, payload, qos, .. }) = &snt.pkt else { continue };
+        if snt.complete_step.is_none() {
+            break;
+        }
+        let alias = props.iter().find_map(|(id, v)| if *id == 0x23 { if let PVal::U16(a) = v { Some(*a) } else { None } } else { None });
+        let resolved = match alias {
+            None => topic.clone(),
+            Some(a) if topic.is_empty() => match map.get(&a) {
+                Some(t) => t.clone(),
+                // (the alphabet of this configuration only uses an alias after binding it; an unbound use ends the judgement)
+                None => return Ok(()),
+            },
+            Some(a) => {
+                map.insert(a, topic.clone());
+                topic.clone()
+            }
+        };
+        let delivered = hs.get(hidx).filter(|h| h.payload.first() == payload.first());
+        match delivered {
+            Some(h) => {
+                if let Some(m) = missing_from {
+                    return Err(viol(s, "after-close", "delivery order".into(), format!("PUBLISH #{i} reached the handler although PUBLISH #{m} before it did not")));
+                }
+                if closed && *qos > 0 {
+                    return Err(viol(s, "after-close", "qos above handle_qos_after_disconnect delivered".into(), format!("PUBLISH #{i} (QoS {qos}) reached the handler after the connection was closed")));
+                }
+                if h.topic != resolved {
+                    return Err(viol(s, "wrong-topic", format!("after close: alias {alias:?} topic {topic:?}"), format!("PUBLISH #{i} must resolve to {resolved:?} but the handler saw {:?}", h.topic)));
+                }
+                hidx += 1;
+                if resolved == "a" {
+                    closed = true;
+                }
+            }
+            None => {
+                if !closed {
+                    return Err(viol(s, "not-delivered", "valid alias use".into(), format!("PUBLISH #{i} (resolves to {resolved:?}) never reached a handler although the connection was open")));
+                }
+                // after the close: QoS 1 is dropped by design; a QoS 0 publish may be missing only because it was
+                // not buffered any more when the transport was terminated - then nothing later may arrive either
+                if *qos == 0 && missing_from.is_none() {
+                    missing_from = Some(i);
+                }
+            }
+        }
+    }
+    if hidx != hs.len() {
+        return Err(viol(s, "after-close", "unexpected handler invocation".into(), format!("{} handler invocations, {} explained by the packets sent", hs.len(), hidx)));
+    }
+    Ok(())
+}
+
 pub fn final_check(s: &In) -> Result<(), Violation> {
+    if s.cfg.ep.close_on_a {
+        return final_check_after_close(s);
+    }
     let hs = handler_records(s);
     let mut map: HashMap<u16, String> = HashMap::new();
     let mut expect_stop = false;
@@ -118,6 +183,30 @@ pub fn configs(tier: Tier) -> Vec<InCfg> {
                     alphabet.push(T::Pub { qos: 0, id: 0, len: 1, topic, alias });
                 }
             }
+            if role == Role::Server && !router {
+                // the application closes the connection while more publishes are buffered: with
+                // handle_qos_after_disconnect = QoS 0 they are still dispatched, QoS 1 ones are dropped - and must bind
+                // their alias all the same (seeded change C17_r6). Packets are written in groups (cork / flush).
+                let mut cep = ep.clone();
+                cep.close_on_a = true;
+                cep.handle_qos_after_disconnect = Some(0);
+                let p = |qos: u8, topic: u8, alias: u16| T::Pub { qos, id: 0, len: 1, topic, alias };
+                v.push(InCfg {
+                    ep: cep,
+                    connect_props: vec![],
+                    alphabet: vec![p(0, 1, 1), p(0, 1, 0), p(1, 2, 1), p(1, 2, 2), p(0, 3, 1), p(0, 3, 2), p(0, 2, 0)],
+                    prologue: vec![],
+                    max_len: if tier == Tier::Quick { 4 } else { 5 },
+                    outcomes: vec![GateOutcome::Ok],
+                    poutcomes: vec![GateOutcome::Ok],
+                    cork: true,
+                    judge: J_C17,
+                    app_sends: vec![],
+                    skip_connect: false,
+                    known: vec![],
+                    bp: 0,
+                });
+            }
             v.push(InCfg {
                 ep,
                 connect_props: vec![],
@@ -146,7 +235,7 @@ pub fn run(tier: Tier) -> i32 {
     }
     // bindings do not leak between connections
     crate::c17x::two_connections(&mut ck, tier);
-    ck.rule = "v5 server and v5 client, each with a plain handler and with the topic router (resources a, b + default): every sequence of up to 4 (quick) / 5 (thorough) QoS 0 publishes over topic in {a, b, empty} x alias in {none, 1, 2, 3} with Topic Alias Maximum 2; reference HashMap per connection decides the resolved topic, the resource handler, or that the connection must end with a protocol error; plus a two-connection world where connection B binds the aliases connection A then uses unbound".into();
+    ck.rule = "v5 server and v5 client, each with a plain handler and with the topic router (resources a, b + default): every sequence of up to 4 (quick) / 5 (thorough) QoS 0 publishes over topic in {a, b, empty} x alias in {none, 1, 2, 3} with Topic Alias Maximum 2; reference HashMap per connection decides the resolved topic, the resource handler, or that the connection must end with a protocol error; plus (server) a configuration with handle_qos_after_disconnect = QoS 0 whose handler force-closes the connection on topic a while more publishes are buffered (packets written in groups): QoS 1 publishes are dropped after the close but bind their alias all the same, QoS 0 ones are delivered under the resolved topic; plus a two-connection world where connection B binds the aliases connection A then uses unbound".into();
     ck.assumptions = vec!["FIFO task order of ntex-rt; nondeterminism = timing of environment events (DESIGN 2.4)".into()];
     ck.finish()
 }
